@@ -1,9 +1,9 @@
 package rules
 
 import (
-	"go/types"
 	"fmt"
 	"go/token"
+	"go/types"
 	"sort"
 	"strings"
 
@@ -228,6 +228,15 @@ func c01Walk(c *Ctx, s *scanShape) {
 	gs := c.guardsOf(cb, reads[0].(ssa.Instruction))
 	var notDir, ext, infoOK bool
 	var extra []string
+	if len(cb.Params) == 3 {
+		// the callback's parameters by position, whatever they are called
+		for i, g := range gs {
+			for k, std := range []string{"path", "info", "err"} {
+				g = strings.ReplaceAll(g, "param:"+cb.Params[k].Name()+")", "param:"+std+")")
+			}
+			gs[i] = g
+		}
+	}
 	for _, g := range gs {
 		switch {
 		case strings.HasPrefix(g, "!IsDir("):
